@@ -305,6 +305,14 @@ Proof.
   apply fround_exact with (m' := m) (e' := e); auto; lia.
 Qed.
 
+(* sign and magnitude of a multiple of a positive number (stated separately: nia is slow on them in
+   a large context) *)
+Lemma ltb_mul_pos : forall t P, 0 < P -> (t * P <? 0) = (t <? 0).
+Proof. intros t P HP. destruct (Z.ltb_spec t 0); destruct (Z.ltb_spec (t * P) 0); try reflexivity; nia. Qed.
+
+Lemma abs_mul_pos : forall t P, 0 < P -> Z.abs (t * P) = Z.abs t * P.
+Proof. intros t P HP. rewrite Z.abs_mul, (Z.abs_eq P) by lia. reflexivity. Qed.
+
 (** addition when the exact sum is representable *)
 Lemma mk_add : forall f k u v, rep f k (u + v) -> fadd f (mk k u) (mk k v) = mk k (u + v).
 Proof.
@@ -332,11 +340,11 @@ Proof.
     unfold rep in Hrep. destruct (mk_fin k (u + v) Hs) as (m & e & E & Ho & K & A).
     rewrite E in *. cbn [valid] in Hrep. rewrite !andb_true_iff, !Z.leb_le in Hrep.
     destruct Hrep as [[[_ Hd] Hmin] Hmax].
-    replace (u + v <? 0) with (t <? 0) by nia.
+    replace (u + v <? 0) with (t <? 0) by (rewrite Ht; symmetry; apply ltb_mul_pos; exact Hp).
     apply fround_exact; try lia.
     (* the normal form of |t| at exponent e0 is the normal form of |u+v| at exponent -k *)
     unfold mk in E. replace (u + v =? 0) with false in E by lia. cbn [fnorm] in E.
-    replace (Z.abs (u + v)) with (Z.abs t * 2 ^ (e0 + k)) in E by nia.
+    replace (Z.abs (u + v)) with (Z.abs t * 2 ^ (e0 + k)) in E by (rewrite Ht; symmetry; apply abs_mul_pos; exact Hp).
     destruct (Z.abs t) as [|p|p] eqn:Et; try lia.
     rewrite pnorm_shift in E by lia. replace (- k + (e0 + k)) with e0 in E by lia.
     change (Z.to_pos (Zpos p)) with p.
